@@ -110,6 +110,11 @@ impl Clone for Primitive {
     #[verifier::external_body]
     fn clone(&self) -> (r: Primitive) ensures r == *self { unimplemented!() }
 }
+impl Clone for Dictionary {
+    // TRUSTED: #[derive(Clone)] on Dictionary (a plain copy: references inside are NOT sent through the cloner)
+    #[verifier::external_body]
+    fn clone(&self) -> (r: Dictionary) ensures r == *self { unimplemented!() }
+}
 impl<T> Clone for Ref<T> { fn clone(&self) -> (r: Ref<T>) ensures r == *self { *self } }
 impl<T> Copy for Ref<T> {}
 
